@@ -466,4 +466,23 @@ theorem qf_insert_internal_eq (t : St N) (q : Fin N) (r : Nat) :
                 simp only [qfRes, St.set, hn2]
                 rfl
 
+/-- the public `query` and `insert`, given the element's (quotient, remainder) = `calc_quotient_remainder` -/
+theorem qf_query_eq (t : St N) (q : Fin N) (r : Nat) :
+    qf_query (occL t) (contL t) (shiftL t) (remL t) q.val r =
+      match scan t q r false with
+      | none => Flow.panic
+      | some sr => Flow.ret sr.present := by
+  simp only [qf_query, qf_scan_eq]
+  cases scan t q r false <;> rfl
+
+theorem qf_insert_eq (t : St N) (q : Fin N) (r : Nat) :
+    qf_insert (occL t) (contL t) (shiftL t) (remL t) t.n q.val r =
+      match insertInternal t q r with
+      | none => Flow.panic
+      | some (t', res) => Flow.ret (qfRes res, (occL t', contL t', shiftL t', remL t', t'.n)) := by
+  simp only [qf_insert, qf_insert_internal_eq]
+  cases insertInternal t q r with
+  | none => rfl
+  | some p => rfl
+
 end Pds.KernelTie
